@@ -61,7 +61,7 @@ def adt_base(tys):
 
 
 class Activation:
-    __slots__ = ("fid", "fn", "body", "block", "ret_dest", "ret_target", "visits", "title")
+    __slots__ = ("fid", "fn", "body", "block", "ret_dest", "ret_target", "visits", "title", "subst")
 
     def __init__(self, fid, fn, body, block, ret_dest, ret_target, title=None):
         self.fid = fid
@@ -72,10 +72,12 @@ class Activation:
         self.ret_target = ret_target
         self.visits = {}
         self.title = title
+        self.subst = {}
 
     def copy(self):
         a = Activation(self.fid, self.fn, self.body, self.block, self.ret_dest, self.ret_target, self.title)
         a.visits = dict(self.visits)
+        a.subst = self.subst
         return a
 
 
@@ -182,6 +184,11 @@ class State:
             return (t[1], t[1])
         d = self.cons.get(("bnd", t))
         lo, hi = (d[1], d[2]) if d is not None else (None, None)
+        slo, shi = static_bounds(t)
+        if slo is not None:
+            lo = slo if lo is None else max(lo, slo)
+        if shi is not None:
+            hi = shi if hi is None else min(hi, shi)
         dd = self.cons.get(t)
         if dd is not None and dd[0] == "in" and dd[1] and all(isinstance(v, int) for v in dd[1]):
             lo = min(dd[1]) if lo is None else max(lo, min(dd[1]))
@@ -727,13 +734,18 @@ class Evaluator:
         self.push(st, fn, body, argv, None, None, title)
         return self.explore(st)
 
-    def push(self, st, fn, body, argv, ret_dest, ret_target, title=None):
+    def push(self, st, fn, body, argv, ret_dest, ret_target, title=None, targs=None):
         if len(st.stack) >= self.MAX_DEPTH:
             raise Unsupported("inlining depth exceeded at %s" % fn["name"])
         fid = st.next_fid
         st.next_fid += 1
         st.frames[fid] = {i + 1: v for i, v in enumerate(argv)}
-        st.stack.append(Activation(fid, fn, body, 0, ret_dest, ret_target, title))
+        a = Activation(fid, fn, body, 0, ret_dest, ret_target, title)
+        names = fn.get("type_params") or []
+        if targs and names:
+            # type arguments come last-aligned with the callee's own (and parents') type parameters
+            a.subst = dict(zip(names[-len(targs):] if len(targs) < len(names) else names, targs[-len(names):]))
+        st.stack.append(a)
 
     def explore(self, st0):
         done = []
@@ -1017,6 +1029,11 @@ class Evaluator:
                         lo = hi = c[1]
                     if (lo is not None or hi is not None) and not st.bnd_meet(u, lo, hi):
                         return False
+            if allowed == frozenset("=") and a0[0] != "int" and b0[0] != "int":
+                # equal terms share their bounds
+                (alo, ahi), (blo, bhi) = st.bnd_get(a0), st.bnd_get(b0)
+                if not st.bnd_meet(a0, blo, bhi) or not st.bnd_meet(b0, alo, ahi):
+                    return False
         if k == "app" and t[1] in ("Eq", "Ne") and len(t[2]) == 2:
             a, b = t[2]
             if b[0] != "int" and a[0] == "int":
@@ -1125,7 +1142,7 @@ class Evaluator:
                 st.emit(("panic", name, tuple(args), w))
                 return [Path("panic", None, st, name)]
             self.stats["inlined"].add(name)
-            self.push(st, target_fn, target_fn["body"], args, dest, target)
+            self.push(st, target_fn, target_fn["body"], args, dest, target, targs=ci.targs())
             return [st]
         # 3. models
         res = self.models.call(ci)
@@ -1209,12 +1226,16 @@ class CallInfo:
         self.trait = fnj.get("trait")
         self.item = fnj.get("item")
 
+    def _sub(self, s):
+        sub = self.act.subst
+        return sub.get(s, s) if sub else s
+
     def targs(self):
         r = self.fnj.get("resolved")
-        return [a["s"] for a in (r or self.fnj)["args"]]
+        return [self._sub(a["s"]) for a in (r or self.fnj)["args"]]
 
     def orig_targs(self):
-        return [a["s"] for a in self.fnj["args"]]
+        return [self._sub(a["s"]) for a in self.fnj["args"]]
 
     def dest_ty(self):
         return self.act.body["locals"][self.dest["local"]]["ty"] if not self.dest["proj"] else {"s": self.dest["ty"], "k": "?"}
@@ -1236,6 +1257,36 @@ def mentions(t, syms):
             if isinstance(x, tuple) and mentions(x, syms):
                 return True
     return False
+
+
+def static_bounds(t, depth=0):
+    """bounds of an integer term that follow from its shape alone (type ranges)"""
+    if depth > 8:
+        return (None, None)
+    if t[0] == "int":
+        return (t[1], t[1])
+    if t[0] == "len":
+        return (0, (1 << 63) - 1)
+    if t[0] == "app" and t[1].startswith("cast:") and len(t[2]) == 1:
+        bits, signed = int_bits(t[1][5:])
+        ilo, ihi = static_bounds(t[2][0], depth + 1)
+        ity = term_type(t[2][0])
+        if ilo is None and ity:
+            ib, isg = int_bits(ity)
+            if ib and not isg:
+                ilo, ihi = 0, (1 << ib) - 1
+        if bits and not signed:
+            tlo, thi = 0, (1 << bits) - 1
+            if ilo is not None and ihi is not None and ilo >= tlo and ihi <= thi:
+                return (ilo, ihi)
+            return (tlo, thi)
+        return (None, None)
+    ty = term_type(t)
+    if ty:
+        bits, signed = int_bits(ty)
+        if bits and not signed:
+            return (0, (1 << bits) - 1)
+    return (None, None)
 
 
 def is_bool_term(t):
@@ -1269,6 +1320,12 @@ def term_type(t):
         return t[1]
     if t[0] == "int":
         return t[2]
+    if t[0] == "app" and t[1].startswith(("collect:", "cast:")):
+        return t[1].split(":", 1)[1]
+    if t[0] == "app" and t[1] == "to_vec":
+        return "alloc::vec::Vec<u8>"
+    if t[0] == "unwrap" and t[1][0] == "app" and t[1][1].startswith("from_str_radix:"):
+        return t[1][1].split(":", 1)[1]
     if t[0] == "item" and t[1][0] == "iter" and t[1][1] == "chunks":
         return "&[u8]"
     if t[0] == "item" and t[1][0] == "adt" and t[1][1].endswith("ops::range::Range") and len(t[1][4]) == 2:
